@@ -65,6 +65,11 @@ def ccs(rng):
     return TlsChangeCipherSpecMessage()
 
 
+def app_data(rng):
+    from cryptoparser.tls.subprotocol import TlsApplicationDataMessage
+    return TlsApplicationDataMessage(bytearray(rbytes(rng, rlen(rng, 80))))
+
+
 def hello_random(rng):
     from cryptoparser.tls.subprotocol import TlsHandshakeHelloRandom, TlsHandshakeHelloRandomBytes
     t = rng.choice([0, 1, 2 ** 31 - 1, 2 ** 31, 2 ** 32 - 1, rng.randrange(2 ** 32)])
@@ -279,6 +284,7 @@ MODELLED_GENERATORS = [
     ('TlsRecord', record),
     ('TlsAlertMessage', alert),
     ('TlsChangeCipherSpecMessage', ccs),
+    ('TlsApplicationDataMessage', app_data),
     ('TlsHandshakeClientHello', client_hello),
     ('TlsHandshakeServerHello', server_hello),
     ('TlsHandshakeHelloRetryRequest', lambda r: server_hello(r, True)),
